@@ -35,14 +35,14 @@ class CompactTimeslot(Contract):
             return
         r = outcome[1]
         if r.kind != 'vmap':
-            self.forbid(ctx, 'C18.compact.returns_a_dict', tags=T)
+            self.shape(ctx, 'C18.compact.returns_a_dict', tags=T)
             return
         a, b, j = c.a, c.b, c.j
         k = r.meta['n']
         ctx.oblige('C18.compact.domain_is_the_input_set', r.dom(a) == c.member(a), tags=T)
         ga, gb = r.get(a), r.get(b)
         if ga.kind != 'int':
-            self.forbid(ctx, 'C18.compact.values_are_ints', tags=T)
+            self.shape(ctx, 'C18.compact.values_are_ints', tags=T)
             return
         ctx.oblige('C18.compact.strictly_increasing', z3.Implies(z3.And(r.dom(a), r.dom(b), a < b), ga.z < gb.z), tags=T)
         ctx.oblige('C18.compact.values_in_0_k', z3.Implies(r.dom(a), z3.And(0 <= ga.z, ga.z < k)), tags=T)
@@ -97,7 +97,7 @@ class PathLength(_PathFn):
             return self.forbid(ctx, 'C14.path_length.no_exception.%s' % outcome[1], tags=('C14',), note=outcome[2])
         r = outcome[1]
         if r.kind != 'int':
-            return self.forbid(ctx, 'C14.path_length.returns_an_int', tags=('C14',))
+            return self.shape(ctx, 'C14.path_length.returns_an_int', tags=('C14',))
         ctx.oblige('C14.path_length.is_the_hop_count', r.z == c.n, tags=('C14',))
 
 
@@ -118,7 +118,7 @@ class PathDuration(_PathFn):
             return self.forbid(ctx, 'C14.path_duration.no_exception.%s' % outcome[1], tags=('C14',), note=outcome[2])
         r = outcome[1]
         if r.kind != 'int':
-            return self.forbid(ctx, 'C14.path_duration.returns_an_int', tags=('C14',))
+            return self.shape(ctx, 'C14.path_duration.returns_an_int', tags=('C14',))
         ctx.oblige('C14.path_duration.is_last_minus_first_time', r.z == c.ht(c.n - 1) - c.ht(0), tags=('C14',))
 
 
@@ -243,7 +243,7 @@ class AnnotatePaths(Contract):
             return self.forbid(ctx, 'C14.annotate.no_exception.%s' % outcome[1], tags=T, note=outcome[2])
         r = outcome[1]
         if r.kind != 'dict':
-            return self.forbid(ctx, 'C14.annotate.returns_a_dict', tags=T)
+            return self.shape(ctx, 'C14.annotate.returns_a_dict', tags=T)
         w = c.w
         slots = {kk.s: vv for kk, vv in r.pairs if kk.kind == 'str'}
         i, cc = c.qi, c.qc
@@ -251,7 +251,7 @@ class AnnotatePaths(Contract):
         minimal = {}
         for name, X in self.crit(w).items():
             if name not in slots:
-                return self.forbid(ctx, 'C14.annotate.has_key_%s' % name, tags=T)
+                return self.shape(ctx, 'C14.annotate.has_key_%s' % name, tags=T)
             bn, cnt = self.as_bag(w, slots[name])
             ismin = lambda p, X=X: z3.And(inb(p, w.n), z3.ForAll([j], z3.Implies(inb(j, w.n), X(w.cid(p)) <= X(w.cid(j)))))
             minimal[name] = ismin
@@ -262,7 +262,7 @@ class AnnotatePaths(Contract):
         for name, (first, X2) in second.items():
             v = slots.get(name)
             if v is None or v.kind != 'keyset':
-                return self.forbid(ctx, 'C14.annotate.%s.is_a_list_of_paths' % name, tags=T, note='kind %s' % (v.kind if v is not None else None))
+                return self.shape(ctx, 'C14.annotate.%s.is_a_list_of_paths' % name, tags=T, note='kind %s' % (v.kind if v is not None else None))
             p, p2 = z3.Int('p?fin'), z3.Int('p2?fin')
             expected = z3.Exists([p], z3.And(minimal[first](p), w.cid(p) == cc,
                                              z3.ForAll([p2], z3.Implies(minimal[first](p2), X2(cc) <= X2(w.cid(p2))))))
